@@ -105,6 +105,12 @@ func (s *searcher) run(start []Event) {
 				continue // a panicking transition is reported, not expanded
 			}
 			k := fmt.Sprintf("%d|%s", byzCount(nh), w2.key())
+			if e.Kind == 'B' && len(h) > 0 && h[len(h)-1] == e {
+				// the same injection twice in a row: kept apart from the states it looks like (what
+				// a repetition changes may sit where the reflection dump does not reach - a filter
+				// in front of the receiver, for instance)
+				k += "|repeated:" + e.String()
+			}
 			if _, seen := s.visited[k]; !seen {
 				s.visited[k] = struct{}{}
 				s.c.State(s.prefix + k)
